@@ -44,6 +44,10 @@ class _StopNow(Exception):
     pass
 
 
+class _GiveUp(Exception):
+    pass
+
+
 def clean_stop(w):
     '''What the server does on SIGTERM: shutdown event + cancellation; the task flushes.'''
     w.shutdown_event.set()
@@ -96,14 +100,22 @@ def run_case(case, res):
             try:
                 w.run_until_caught_up(step_hook=stop_hook)
             except _StopNow:
-                clean_stop(w)
-                res.distinct('stopped_at_heights', w.db.state.height)
-                w.close(destroy=False)
-                w = world.World(m, **wp)
-                w.daemon.set_chain(blocks)
-                w.start_sync()
-                w.run_until_caught_up()
-                res.count('restarts_during_initial_sync')
+                try:
+                    clean_stop(w)
+                    if not w.bp_task.cancelled() and w.bp_task.exception():
+                        raise world.SyncFailed(w.bp_task.exception())
+                    res.distinct('stopped_at_heights', w.db.state.height)
+                    w.close(destroy=False)
+                    w = world.World(m, **wp)
+                    w.daemon.set_chain(blocks)
+                    w.start_sync()
+                    w.run_until_caught_up()
+                    res.count('restarts_during_initial_sync')
+                except world.SyncFailed as e:
+                    # the shutdown flush or the run after it died: no window to speak of
+                    failures.append(('clean-shutdown-during-initial-sync-or-the-restart-died',
+                                     dict(error=repr(e))))
+                    raise _GiveUp()
         elif k is None:
             # caught up at h0, then the daemon grows one block per poll
             w.run_until_caught_up()
@@ -175,6 +187,8 @@ def run_case(case, res):
                     res.count('refused_reorgs_reopened')
                 finally:
                     w2.close(destroy=False)
+    except _GiveUp:
+        pass
     finally:
         if coin_saved:
             coin_saved[0].REORG_LIMIT = coin_saved[1]
